@@ -4,18 +4,18 @@ _sp = importlib.util.spec_from_file_location("c04spec", os.path.join(os.path.dir
 c04 = importlib.util.module_from_spec(_sp); _sp.loader.exec_module(c04)
 TITLE = "DTD results equal sequential execution in insertion order"
 INS, OVL, FLS, INT, UNITS, STUBS, RB, UF = c04.INS, c04.OVL, c04.FLS, c04.INT, c04.UNITS, c04.STUBS, c04.RB, c04.UF
-OUTSIDE = []
-ASSUMPTIONS = []
-BOUNDS = {"quick": {}, "thorough": {}}
+OUTSIDE = c04.OUTSIDE + ["insertion sequences other than: history (writer, optional reader) on tile A, optional writer on tile B, then ONE new task with the listed flow patterns", "tasks inserting tasks; more than one execution order of independent tasks beyond the N-before-R / R-before-N choice"]
+ASSUMPTIONS = c04.ASSUMPTIONS + ["sequential oracle: one version number per tile; a task body checks every flow against the version sequential execution in insertion order would show it and writes the next version; compositional argument (not checked by the solver): chains are built one insertion at a time, so the one-insertion contract from every listed chain state extends to longer sequences"]
+BOUNDS = {"quick": {"tile A states": "0,2,3,5 (two tiles) / 0,2,3,5 (same tile twice)", "tasks": 4, "tiles": 2, "flows": "<=3"}, "thorough": {"tile A states": "all 7"}}
 PRE = {0: "writer W alive", 1: "W completed", 2: "W and reader R alive", 3: "W completed, then R inserted", 4: "as 3, R completed",
        5: "W, R inserted, then W completed", 6: "as 5, R completed"}
 
 def queries(ctx):
     qs = []
-    def link(same, mask, tiers, slow=False):
+    def link(same, mask, tiers, slow=False, kf=None):
         nm = "link_%s_pre%s" % ("same_tile" if same else "two_tiles", "".join(str(i) for i in range(7) if (mask >> i) & 1))
-        qs.append(Q(nm, ["link.c"], defs=["SAME_TILE=%d" % same, "PRE_MASK=%d" % mask], unwind=7, unwind_fn=dict(UF, parsec_dtd_ordering_correctly=7),
-                    units=UNITS, object_bits=12, timeout=2400, remove_bodies=RB, tiers=tiers, slow=slow,
+        qs.append(Q(nm, ["link.c", "../C04/native_stubs.c"], defs=["SAME_TILE=%d" % same, "PRE_MASK=%d" % mask], unwind=7, unwind_fn=dict(UF, parsec_dtd_ordering_correctly=7),
+                    units=UNITS, object_bits=12, timeout=2400, remove_bodies=RB, tiers=tiers, slow=slow, kf=kf,
                     info={"symbolic": ["state of tile A before the insertion: " + "; ".join("%d %s" % (i, PRE[i]) for i in range(7) if (mask >> i) & 1),
                                        "state of tile B: never used / writer Q alive / Q completed",
                                        "flows of the new task N: " + ("A:R+A:R, A:RW+A:R, A:R+A:RW, A:RW+B:RW+A:R" if same else "A:R, A:W, A:RW, A:R+B:RW, A:RW+B:RW, A:RW+B:R"),
@@ -28,11 +28,19 @@ def queries(ctx):
                           "note": "the choices are inputs of the query; the harness dispatches on them so that each combination is unfolded from the initial state"}))
     link(0, 0b0100101, ("quick", "thorough"))
     link(0, 0b0001000, ("quick", "thorough"))
-    link(1, 0b0101101, ("quick", "thorough"))
+    link(1, 0b0101101, ("quick", "thorough"), kf="C03-same-tile-twice")
     if ctx.thorough:
-        link(0, 0b1010010, ("thorough",)); link(1, 0b1010010, ("thorough",))
+        link(0, 0b1010010, ("thorough",)); link(1, 0b1010010, ("thorough",), kf="C03-same-tile-twice")
     return qs
 
 def mutants(ctx):
-    return []
+    return [
+      Mutant("same_tile_flow_not_counted", INS, "            if( last_user.task == this_task ) {\n                satisfied_flow += 1;", "            if( last_user.task == this_task ) {\n                satisfied_flow += 0;", queries=["link_same_tile_pre0235"]),
+      Mutant("parent_is_last_user", INS, "        if( TASK_IS_ALIVE == last_user.alive ) {\n            parsec_dtd_set_parent(last_writer.task, last_writer.flow_index,", "        if( TASK_IS_ALIVE == last_user.alive ) {\n            parsec_dtd_set_parent(last_user.task, last_user.flow_index,", queries=["link_two_tiles_pre025"]),
+      Mutant("desc_flow_index_swapped", INS, "    desc->flow_index = desc_flow_index;", "    desc->flow_index = parent_flow_index;", queries=["link_two_tiles_pre025", "link_same_tile_pre0235"]),
+      Mutant("flow_count_no_guard", INS, "this_task->flow_count = this_task->super.task_class->nb_flows + 1;", "this_task->flow_count = this_task->super.task_class->nb_flows;", queries=["link_two_tiles_pre3", "link_two_tiles_pre025"]),
+      Mutant("fresh_tile_flow_not_counted", INS, "                this_task->super.data[flow_index].data_in = tile->data_copy;\n                satisfied_flow += 1;", "                this_task->super.data[flow_index].data_in = tile->data_copy;", queries=["link_two_tiles_pre025"]),
+      Mutant("release_dep_off_by_one", INS, "not_ready = parsec_atomic_fetch_dec_int32(&current_task->flow_count) - 1;", "not_ready = parsec_atomic_fetch_dec_int32(&current_task->flow_count) - 2;", queries=["link_two_tiles_pre025"]),
+      Mutant("last_user_not_updated_for_reader", INS, "        if( put_in_chain ) {\n            /* Setting the last_user info with info of this_task */\n            tile->last_user.task = this_task;", "        if( put_in_chain && (tile_op_type & PARSEC_GET_OP_TYPE) != PARSEC_INPUT ) {\n            /* Setting the last_user info with info of this_task */\n            tile->last_user.task = this_task;", queries=["link_two_tiles_pre025"]),
+    ]
 CLAIMED = False
